@@ -6,6 +6,7 @@
    addresses [a0].  Histories are the append-only [log]. *)
 From Coq Require Import ZArith NArith List Bool Arith Lia.
 From LLRP Require Import Driver.Supervisor Driver.SupervisorProofs Driver.SupervisorRetry Driver.Registry Driver.RegistryProofs.
+From LLRP Require Import Driver.SupervisorFlight Driver.SupervisorFlightProofs.
 Import ListNotations.
 
 (* 1. retries until stopped: after any finite run without Stop, a Dial is enabled — at once, or
@@ -311,3 +312,113 @@ Example C15_registry_example :
   let evs := [RCheck 0; RCheck 1; REnter 1; RCheck 2; REnter 0; RRemove; RCheck 3; REnter 3; RExit 0; RExit 1] in
   reg (rrun flags_repaired evs) = Some 1 /\ live (rrun flags_repaired evs) = [1] /\ got (rrun flags_repaired evs) = [(3, 1); (0, 0); (2, 0); (1, 0)] /\ exited (rrun flags_repaired evs) = [0].
 Proof. vm_compute. repeat split; reflexivity. Qed.
+
+(* ------------------------------------------------------------------------------------------
+   "so reported states alternate and follow reachability" / "after Stop it opens no further
+   connections" when the things Supervisor.v treats as atomic TAKE TIME
+   (Driver/SupervisorFlight.v): a call of UpdateDeviceOperatingState that returns late (one slow
+   call at a time, [FArm] .. [FComplete]; what EdgeX holds is the call that RETURNED last) and a
+   dial that is neither accepted nor refused for a while ([FDialStart] .. [FDialEnd]).
+   [frun fl (finit up0) evs] for ALL event lists; [mkFF true db] = the supervisor waits for its
+   Down call (the tree), [mkFF dw true] = the dial is bound to the device's context (the tree). *)
+
+(* what EdgeX holds is, by construction of the history, the call that returned last *)
+Theorem C15_edgex_holds_last_returned : forall fl up0 evs,
+  let s := frun fl (finit up0) evs in f_edgex s = flast_done (st0 up0) (f_log s).
+Proof. exact edgex_is_last_returned. Qed.
+Print Assumptions C15_edgex_holds_last_returned.
+
+(* while the Down report is in flight the supervisor makes no attempt (and there is no connection
+   and no dial in flight): a Down can never be overtaken by the Up of a later connection *)
+Theorem C15_no_attempt_while_down_in_flight : forall db up0 evs,
+  let fl := mkFF true db in
+  let s := frun fl (finit up0) evs in
+  f_flight s = Some Down ->
+  f_conn s = false /\ f_pending s = false /\
+  (forall ok, fstep fl s (FDial ok) = s) /\ fstep fl s FDialStart = s.
+Proof. exact no_attempt_while_down_in_flight. Qed.
+Print Assumptions C15_no_attempt_while_down_in_flight.
+
+(* follows reachability, in completion order: whenever a connection stands and no call is in
+   flight, EdgeX holds Up ... *)
+Theorem C15_edgex_up_when_connected : forall db up0 evs,
+  let s := frun (mkFF true db) (finit up0) evs in
+  f_conn s = true -> f_flight s = None -> f_edgex s = Up.
+Proof. exact edgex_up_when_connected. Qed.
+Print Assumptions C15_edgex_up_when_connected.
+
+(* ... and whenever two attempts have failed since the reader last accepted a connection AND since
+   EdgeX was last told Up (an Up that returns late restarts the count: the device then holds
+   itself Up and owes the Down at the end of the next round) and no call is in flight, EdgeX holds
+   Down; the flag the device keeps is what EdgeX holds whenever no call is in flight *)
+Theorem C15_edgex_down_after_two : forall db up0 evs,
+  let s := frun (mkFF true db) (finit up0) evs in
+  f_flight s = None -> 2 <= ffails_since_up (f_log s) -> f_edgex s = Down.
+Proof. exact edgex_down_after_two. Qed.
+Print Assumptions C15_edgex_down_after_two.
+
+Theorem C15_isup_is_edgex_when_nothing_in_flight : forall db up0 evs,
+  let s := frun (mkFF true db) (finit up0) evs in
+  f_flight s = None -> f_isUp s = is_up (f_edgex s).
+Proof. exact isup_is_edgex. Qed.
+Print Assumptions C15_isup_is_edgex_when_nothing_in_flight.
+
+(* after Stop no connection is established and no attempt starts, also when Stop arrives while a
+   dial is in flight and the reader answers it afterwards *)
+Theorem C15_no_connection_after_stop_dial_in_flight : forall dw up0 evs1 evs2,
+  let fl := mkFF dw true in
+  fconns (f_log (frun fl (finit up0) (evs1 ++ FStop :: evs2))) = fconns (f_log (frun fl (finit up0) evs1)) /\
+  fdials (f_log (frun fl (finit up0) (evs1 ++ FStop :: evs2))) = fdials (f_log (frun fl (finit up0) evs1)).
+Proof. exact no_connection_after_stop. Qed.
+Print Assumptions C15_no_connection_after_stop_dial_in_flight.
+
+(* the system is Supervisor.v when nothing takes time: over attempts answered at once, Drop and
+   Stop (any flags) its history projects onto the supervisor's, entry by entry *)
+Theorem C15_flight_refines_supervisor : forall fl up0 a0 evs,
+  forallb atomic_ev evs = true ->
+  let f := frun fl (finit up0) evs in
+  let s := run (init up0 a0) (map to_base evs) in
+  log s = proj_log a0 (f_log f) /\ isUp s = f_isUp f /\ stopped s = f_stopped f /\
+  connected s = f_conn f /\ f_flight f = None /\ f_pending f = false.
+Proof. exact flight_refines_supervisor. Qed.
+Print Assumptions C15_flight_refines_supervisor.
+
+(* a Down call made from a goroutine of its own (the supervisor does not wait): the reader comes
+   back while the call is in flight, the Up of the new connection returns first, the Down last:
+   a connection stands, nothing is in flight and EdgeX holds Down *)
+Theorem C15_edgex_up_when_connected_down_not_awaited_refuted :
+  let evs := [FDial true; FDrop; FArm; FDial false; FDial true; FComplete] in
+  let s := frun (mkFF false true) (finit true) evs in
+  f_conn s = true /\ f_flight s = None /\ f_edgex s = Down /\ fdones (f_log s) = [Up; Down] /\
+  (* the tree on the same history: the attempt made while the call is in flight does not exist *)
+  let t := frun flags_tree (finit true) evs in
+  f_conn t = false /\ f_edgex t = Down /\ fdones (f_log t) = [Down].
+Proof. vm_compute. repeat split; reflexivity. Qed.
+Print Assumptions C15_edgex_up_when_connected_down_not_awaited_refuted.
+
+(* a dial with a timeout of its own instead of the device's context: Stop arrives while the dial
+   is in flight, the reader accepts afterwards: a connection is established after Stop *)
+Theorem C15_no_connection_after_stop_unbound_dial_refuted :
+  let fl := mkFF true false in
+  fconns (f_log (frun fl (finit true) [FDialStart; FStop])) = 0 /\
+  fconns (f_log (frun fl (finit true) ([FDialStart] ++ FStop :: [FDialEnd true]))) = 1 /\
+  fconns (f_log (frun flags_tree (finit true) ([FDialStart] ++ FStop :: [FDialEnd true]))) = 0.
+Proof. vm_compute. repeat split; reflexivity. Qed.
+Print Assumptions C15_no_connection_after_stop_unbound_dial_refuted.
+
+(* non-vacuity, and two behaviours of the tree that the text does not exclude, written out:
+   (1) an Up that returns after the connection it announced has gone and two attempts have failed:
+       EdgeX holds Up for an unreachable reader until the next round has failed;
+   (2) an Up that is still in flight when the NEXT connection announces itself: two Up in a row *)
+Example C15_flight_example :
+  let s := frun flags_tree (finit false) [FArm; FDial true; FDrop; FDial false; FComplete; FDial false; FDial false] in
+  f_log s = [FLDial; FLConn; FLHs; FLIssue Up; FLFail; FLDial; FLFail; FLDone Up true;
+             FLDial; FLFail; FLDial; FLFail; FLDone Down false] /\ f_edgex s = Down /\ f_isUp s = false.
+Proof. vm_compute. repeat split; reflexivity. Qed.
+Example C15_flight_two_up_in_a_row :
+  fdones (f_log (frun flags_tree (finit false) [FArm; FDial true; FDrop; FDial false; FDial true; FComplete])) = [Up; Up].
+Proof. vm_compute. reflexivity. Qed.
+Example C15_flight_stop_cancels_dial :
+  f_log (frun flags_tree (finit true) [FDial false; FDialStart; FStop; FDialEnd true]) =
+  [FLDial; FLFail; FLDial; FLPending; FLStop; FLFail; FLDone Down false].
+Proof. vm_compute. reflexivity. Qed.
